@@ -34,7 +34,7 @@ impl Monitor for C18 {
         "exploration"
     }
     fn num_cases(&self, tier: Tier) -> u64 {
-        tier.pick(1600, 40_000)
+        tier.pick(6_400, 160_000)
     }
     fn floors(&self, tier: Tier) -> Vec<(&'static str, u64)> {
         vec![
